@@ -33,6 +33,19 @@ def rule_validator_for(ctx, rid="R20.1"):
     f = prog.func("validators.validator_for")
     cfg = cfg_of(f)
     r = ctx.rule(rid, "validator_for: default for boolean/missing $schema, registry lookup otherwise, warning exactly for unknown URIs", floor=4)
+    from .c02 import _valsem
+    sem = _valsem(ctx, "selection_eval")
+    if sem is not None:
+        # decided by calling validator_for inside the definitional interpreter on 14 (schema, default) rows with a stub registry
+        if sem["selection"] is None:
+            r.ok(site(f) + " [default]", "true, false and schemas without $schema select the default (the latest draft unless one is passed)")
+            r.ok(site(f) + " [registered]", "a registered id selects its class, with or without the empty fragment, whatever default is passed")
+            r.ok(site(f) + " [unknown]", "an unrecognised $schema selects the latest draft, not the passed default")
+            r.ok(site(f) + " [warning]", "exactly one DeprecationWarning, exactly in the unrecognised case; the registry is not written")
+        else:
+            kind = "default-edges" if "default" in sem["selection"] or "True" in sem["selection"] or "False" in sem["selection"] else "lookup|semantic"
+            r.fail("%s|%s" % (f.qual, kind), site(f), sem["selection"])
+        return r
     sp, dp = f.params[0], f.params[1]
     # parameter default
     dflt = f.node.args.defaults[-1] if f.node.args.defaults else None
@@ -153,6 +166,16 @@ def rule_explicit_class_wins(ctx, rid="R20.3", only=None):
     for f, what in ((prog.func("validators.validate"), "cls"), (prog.func("cli.run"), 'arguments["validator"]')):
         if only is not None and f.qual not in only:
             continue
+        if f.qual == "validators.validate":
+            from .c02 import _valsem
+            sem = _valsem(ctx, "selection_eval")
+            if sem is not None:
+                if sem["validate"] is None:
+                    r.ok(site(f), "an explicit class is used for check_schema and construction, validator_for's choice otherwise (four rows evaluated)")
+                    r.ok(site(f) + " [slot]", "check_schema and construction go to the same class, with the schema unchanged")
+                else:
+                    r.fail("%s|guard" % f.qual, site(f), sem["validate"])
+                continue
         cfg = cfg_of(f)
         vcalls = [(n, c) for n in cfg.live for (c, tg) in calls_at(calls, f, n) if any(t.kind == "func" and t.func is vf for t in tg)]
         if len(vcalls) != 1:
@@ -217,6 +240,16 @@ def rule_registration(ctx, rid="R20.4"):
         r.ok("jsonschema/validators.py meta_schemas", "an (initially empty) URIDict: keys normalised on every access")
     else:
         r.fail("validators.meta_schemas|type", "jsonschema/validators.py meta_schemas", "meta_schemas is not a URIDict(): %s" % norm(ms))
+    from .c02 import _valsem
+    sem = _valsem(ctx, "classes_eval")
+    if sem is not None:
+        v = prog.func("validators.validates")
+        if sem["registers"] is None:
+            r.ok(site(v), "a class created with a version is registered under it and under its own metaschema id (with or without '#'); one without an id only under its version")
+            r.ok(site(v) + " [others]", "existing registrations stay; a later class with the same id takes over; create() without version registers nothing")
+        else:
+            r.fail("%s|shape" % "validators.validates._validates" if "named" not in sem["registers"] else "validators.create|registers", site(v), sem["registers"])
+        return r
     # _validates stores cls under version and under ID_OF(META_SCHEMA) when non-empty
     v = prog.func("validators.validates._validates")
     cp = v.params[0]
